@@ -42,7 +42,7 @@ func h05Ref(name []byte) (baseEnd int, segs [][2]int, gmp int) {
 	return
 }
 
-var h05Templates = []string{"", "B/gomaxprocs=", "B/k=a/k=", "B/kk=1/", "B-", "B/gomaxprocs=2-"}
+var h05Templates = []string{"", "B/gomaxprocs=", "B/k=a/k=", "B/kk=1/", "B-", "B/gomaxprocs=2-", "B/k=/k=", "B/gomaxprocs=/gomaxprocs="}
 
 func h05Raw() []byte {
 	n := vndParam("len")
